@@ -15,6 +15,10 @@
 (*   newts   : a start fragment of another frame                           *)
 (*   nomark  : the packets of a valid frame in order, marker bit cleared   *)
 (*   allmark : the same with the marker bit set on every packet            *)
+(*   fillend : start, as many middle fragments as fit under the cap, then   *)
+(*             the fragment that ends the frame and crosses the cap        *)
+(*   hdronly : a middle fragment cut right after its payload header: it    *)
+(*             adds no data (Middle with nothing to keep, or refused)      *)
 (* TLC checks  retained <= Cap + 1  and  returned <= Cap + 1  in every     *)
 (* reachable state, for every class history up to MaxLen.                  *)
 (***************************************************************************)
@@ -44,6 +48,8 @@ React(c) ==
     [] c = "sameseq" -> Refuse
     [] c \in {"valid", "nomark"} -> (Start \/ Middle \/ End)
     [] c = "allmark" -> (Start \/ Middle \/ End \/ Single)
+    [] c = "fillend" -> (End \/ Refuse)
+    [] c = "hdronly" -> (Refuse \/ (UNCHANGED retained /\ lastOut' = 0))
     [] OTHER -> (Start \/ Middle \/ End \/ Single \/ Refuse)     \* garbage
 
 Step(c) ==
@@ -58,5 +64,5 @@ Spec == Init /\ [][Next]_vars
 Bounded == retained <= Cap + 1 /\ lastOut <= Cap + 1
 
 AllClasses == {"start", "middle", "end", "single", "valid", "trunc", "random", "hdrkeep",
-               "bitflip", "sameseq", "newts", "nomark", "allmark"}
+               "bitflip", "sameseq", "newts", "nomark", "allmark", "hdronly", "fillend"}
 =============================================================================
